@@ -1,5 +1,9 @@
 #!/bin/sh
-# Offline build of the Lean library and the native model driver.
+# Offline build of the Lean library (all property theorems) and the native model driver.
 set -e
-cd "$(dirname "$0")/lean"
-lake build UH uhdrv 2>&1 | tail -n 20
+cd "$(dirname "$0")"
+/venv/bin/python harness/extract/gen_norm.py >/dev/null
+/venv/bin/python harness/extract/gen_tables.py >/dev/null
+cd lean
+lake build UH uhdrv 2>&1 | tail -n 15
+test -x .lake/build/bin/uhdrv
